@@ -1019,6 +1019,12 @@ fn real_main() {
             out.check(o != "Endless" && o != "Panic", "iter_slice_total", &c, &o);
             out.case(&c, &o, o.len() > 5, "islice");
         }
+        // a CNAME loop with a huge ANCOUNT makes canonical_name run ANCOUNT+1 rounds: fine for the
+        // implementation, minutes for the extracted model -- such messages stay oracle-only
+        let long_chase = catch({ let m2 = m.to_vec(); move || match Message::from_slice(&m2) {
+            Ok(msg) => msg.header_counts().ancount() > 300 && msg.first_question().is_some() && msg.answer().is_ok() && msg.canonical_name().is_none(),
+            Err(_) => false } }).unwrap_or(true);
+        if long_chase { out.count("msgframe_skipped_long_cname_chase"); return; }
         let c = format!("msg {}", hex(m));
         out.begin(&c);
         let o = obs_msg(m);
@@ -1045,6 +1051,46 @@ fn real_main() {
         let c = format!("skip {} {} {}", lim, p, hex(m));
         let o = obs_skip(m, *p, *lim);
         out.case(&c, &o, o.starts_with("Ok"), "skip");
+    }
+    // exhaustive sub-scope: two compression pointers in a 24 octet window (every pair of targets)
+    {
+        let base: Vec<u8> = { let mut b = vec![0u8, 7, 0x80, 0, 0, 1, 0, 0, 0, 0, 0, 0]; b.extend(&[0xC0, 0, 1, b'a', 0xC0, 0, 2, b'b', b'c', 0, 0, 1]); b };
+        let stride = if a.thorough { 1 } else { 2 };
+        for pb in [16usize, 14, 20] {
+            for ta in (0..24u8).step_by(stride) {
+                for tb in 0..24u8 {
+                    idx += 1;
+                    if !out.wants(idx) { continue; }
+                    let mut m = base.clone();
+                    m[12] = 0xC0; m[13] = ta;
+                    m[pb] = 0xC0; m[pb + 1] = tb;
+                    let c = format!("pname {} {} {}", m.len(), 12, hex(&m));
+                    out.begin(&c);
+                    let o = obs_pname(&m, 12, m.len());
+                    out.case(&c, &o, o.starts_with("Ok"), "pname_two_pointers");
+                    let c = format!("pname {} {} {}", m.len(), pb, hex(&m));
+                    let o = obs_pname(&m, pb, m.len());
+                    out.case(&c, &o, o.starts_with("Ok"), "pname_two_pointers");
+                }
+            }
+        }
+    }
+    if a.thorough {
+        // every octet string of length <= 2 as a name at offset 12
+        let hdr = vec![0u8, 7, 0x80, 0, 0, 1, 0, 0, 0, 0, 0, 0];
+        for n in 0..=2usize {
+            for v in 0..(1u32 << (8 * n)) {
+                idx += 1;
+                if !out.wants(idx) { continue; }
+                let mut m = hdr.clone();
+                for k in 0..n { m.push((v >> (8 * (n - 1 - k))) as u8); }
+                let c = format!("pname {} {} {}", m.len(), 12, hex(&m));
+                out.begin(&c);
+                let o = obs_pname(&m, 12, m.len());
+                out.case(&c, &o, o.starts_with("Ok"), "pname_all_short");
+                if v % 64 == 0 { oracle_msg(&mut out, &m, &query, "all_short"); }
+            }
+        }
     }
     for m in corpus() { run_msg(&mut out, &mut r, &m, "corpus", &mut idx, true); }
     // truncation of one built message at every offset
